@@ -172,6 +172,15 @@ pub fn uadv(thorough: bool) -> Vec<(String, Pats)> {
         v.push((format!("deepfan{}", n), pats));
     }
     v.push(("all256-single".into(), (0..=255u8).map(|i| vec![i]).collect()));
+    // children spread over the whole byte range, always including 0x00 and
+    // 0xFF (first / last byte class of a sparse state; with byte classes off
+    // these are classes 0 and 255), at depth 1 and below every dense depth
+    let spreads: Vec<usize> = if thorough { vec![2, 3, 4, 5, 6, 8, 9, 16, 17, 64, 127, 128] } else { vec![2, 4, 5, 8, 9, 127] };
+    for n in spreads {
+        let bytes: Vec<u8> = (0..n).map(|i| if i + 1 == n { 0xFF } else { (i * 255 / (n - 1)) as u8 }).collect();
+        v.push((format!("spread{}", n), bytes.iter().map(|&x| vec![b'x', x]).collect()));
+        v.push((format!("deepspread{}", n), bytes.iter().map(|&x| vec![b'k', b'e', b'y', x, b'e']).collect()));
+    }
     // number of patterns around the automatic kind switch (<= 100 -> DFA)
     for n in [100usize, 101] {
         let pats: Pats = (0..n).map(|i| format!("k{}", i).into_bytes()).collect();
